@@ -21,6 +21,10 @@ import (
 //	log      Transfer(address indexed from, address indexed to, uint256 value), all selected,
 //	         plus block_time  -> plan: logs + headers  (hashes = true)
 //	lognh    the same without block_time -> plan: logs only (hashes = false)
+//	logr     Transfer as in log, plus block fields tx_status, block_time -> plan: headers + RECEIPTS
+//	         (hashes = true): eth_getBlockReceipts hands EVERY log of every transaction to dig
+//	appr     Approval(address indexed owner, address indexed spender, uint256 value), all selected
+//	         (same topic count and data size as Transfer); logs only, with Hdr: logs + headers
 //	tx       block fields tx_to, tx_value  -> plan: blocks (hashes = true); one row per transaction
 //	txr      block fields tx_status, block_time -> plan: headers + receipts (hashes = true); one row per transaction
 //	trace    block fields trace_action_from/to/value -> plan: blocks + traces; one row per trace action
@@ -67,7 +71,7 @@ type jcol struct {
 
 func (ig *IGSpec) hashes() bool {
 	switch ig.Shape {
-	case "log", "tx", "txr", "trace":
+	case "log", "logr", "tx", "txr", "trace":
 		return true
 	}
 	return ig.Hdr
@@ -100,7 +104,7 @@ func (ig *IGSpec) jsonConfig() map[string]any {
 		return map[string]any{"filter_op": "contains", "filter_ref": map[string]any{"integration": r, "column": "addr"}}
 	}
 	switch ig.Shape {
-	case "log", "lognh", "dep", "depbd":
+	case "log", "lognh", "logr", "dep", "depbd":
 		cols = append(cols, jcol{"f", "bytea"}, jcol{"t", "bytea"}, jcol{"v", "numeric"})
 		var fromExtra, toExtra map[string]any
 		if ig.Shape == "dep" {
@@ -114,7 +118,10 @@ func (ig *IGSpec) jsonConfig() map[string]any {
 			input(true, "to", "address", "t", toExtra),
 			input(false, "value", "uint256", "v", nil),
 		}}
-		if ig.Shape == "log" || ig.Hdr {
+		if ig.Shape == "logr" {
+			addBD("tx_status", "int", nil)
+		}
+		if ig.Shape == "log" || ig.Shape == "logr" || ig.Hdr {
 			addBD("block_time", "numeric", nil)
 		}
 		if ig.AddrFlt {
@@ -125,6 +132,19 @@ func (ig *IGSpec) jsonConfig() map[string]any {
 		}
 		if ig.Shape == "dep" && ig.RefBD != "" {
 			addBD("log_addr", "bytea", ref(ig.RefBD))
+		}
+	case "appr":
+		cols = append(cols, jcol{"o", "bytea"}, jcol{"s", "bytea"}, jcol{"v", "numeric"})
+		event = map[string]any{"name": "Approval", "type": "event", "anonymous": false, "inputs": []any{
+			input(true, "owner", "address", "o", nil),
+			input(true, "spender", "address", "s", nil),
+			input(false, "value", "uint256", "v", nil),
+		}}
+		if ig.Hdr {
+			addBD("block_time", "numeric", nil)
+		}
+		if ig.AddrFlt {
+			addBD("log_addr", "bytea", map[string]any{"filter_op": "contains", "filter_arg": []string{hex0x(TokenAddr)}})
 		}
 	case "created":
 		cols = append(cols, jcol{"addr", "bytea"})
@@ -251,8 +271,10 @@ func u64(v uint64) *big.Int { return new(big.Int).SetUint64(v) }
 func (ig *IGSpec) matchesNode(l *Log) bool {
 	var sig string
 	switch ig.Shape {
-	case "log", "lognh", "dep", "depbd":
+	case "log", "lognh", "logr", "dep", "depbd":
 		sig = SigTransfer
+	case "appr":
+		sig = SigApproval
 	case "created":
 		sig = SigCreated
 	case "tags":
@@ -287,7 +309,7 @@ func (ig *IGSpec) Project(c *Chain, b *Block, src string) []RowVals {
 	}
 	for _, tx := range b.Txs {
 		switch ig.Shape {
-		case "log", "lognh", "dep", "depbd":
+		case "log", "lognh", "logr", "dep", "depbd":
 			for _, l := range tx.Logs {
 				if l.Kind != "transfer" {
 					continue
@@ -312,10 +334,31 @@ func (ig *IGSpec) Project(c *Chain, b *Block, src string) []RowVals {
 				}
 				r := stamp(RowVals{"tx_idx": u64(tx.Idx), "log_idx": u64(l.Idx), "abi_idx": u64(0),
 					"f": l.From, "t": l.To, "v": u64(l.Value)})
-				if ig.Shape == "log" || ig.Hdr {
+				if ig.Shape == "log" || ig.Shape == "logr" || ig.Hdr {
 					r["block_time"] = u64(b.Time)
 				}
+				if ig.Shape == "logr" {
+					r["tx_status"] = u64(1)
+				}
 				if ig.AddrFlt || ig.Shape == "depbd" || (ig.Shape == "dep" && ig.RefBD != "") {
+					r["log_addr"] = l.Addr
+				}
+				out = append(out, r)
+			}
+		case "appr":
+			for _, l := range tx.Logs {
+				if l.Kind != "decoy-topic" { // the generator's Approval logs
+					continue
+				}
+				if ig.AddrFlt && !bytes.Equal(l.Addr, TokenAddr) {
+					continue
+				}
+				r := stamp(RowVals{"tx_idx": u64(tx.Idx), "log_idx": u64(l.Idx), "abi_idx": u64(0),
+					"o": l.From, "s": l.To, "v": u64(l.Value)})
+				if ig.Hdr {
+					r["block_time"] = u64(b.Time)
+				}
+				if ig.AddrFlt {
 					r["log_addr"] = l.Addr
 				}
 				out = append(out, r)
